@@ -23,6 +23,13 @@ Theorem patch_disables_documented_members :
 Proof. exact patch_disables_lemma. Qed.
 Print Assumptions patch_disables_documented_members.
 
+(* the same, with the set written declaratively: i is a public assignment / documented def, some later string constant j
+   carries a formula directive and no sympy-eval marker, and no other member statement lies between them *)
+Theorem patch_disables_documented_members_declarative :
+  forall body i, In i (off_stmts true (patch body)) <-> exists j, documents body i j.
+Proof. exact patch_disables_declarative_lemma. Qed.
+Print Assumptions patch_disables_documented_members_declarative.
+
 (* ... and every other surviving statement is executed with evaluation on *)
 Theorem patch_other_statements_evaluate :
   forall body i, In (i, true) (trace true (patch body)) <-> i < keep_count body /\ ~ In i (spec_disabled body).
